@@ -54,6 +54,14 @@ CLAIMED = {
             "paired and uses the right map, and that attribute deletion un-registers what attribute assignment registered.",
             "Does not decide floating-point behaviour, the SWIG wrapper, memory safety, or the CSR index arithmetic of set_structure / "
             "evaluate_csr_jacobian (shape not robustly extractable: dropped rule R-C15-6). C++ is read by a small tokenizer (sa/cxx.py).", "DESIGN.md §4 C15"),
+    "C16": ("path rules (must-pass-through, must-not-reach, dominance) on a hand-built statement CFG of run_sim, NewtonSolver.solve and "
+            "_solver_helper; per-path append counting in save_results by abstract interpretation; family/key table comparison",
+            "Decides that no path stores/saves/appends a step whose last solve failed, that every failure exit raises (iff convergence_error) or "
+            "warns + sets error_code + leaves the loop, that solve returns a status triple on every exit and `converged` only under the tolerance "
+            "test, that each saved row gets exactly one time stamp, that all result families/keys are appended once per element per save and "
+            "labelled from the same name list, and that time or the bounded trial counter strictly advances on every way round the loop.",
+            "Does not decide finiteness of the numbers nor termination when back-tracking keeps inserting partial steps. Implicit exceptions "
+            "(other than explicit raise / try-except edges) are not modelled.", "DESIGN.md §4 C16"),
     "C17": ("partial evaluation (constant folding with the value as a linear form k*x+c) of the conversion branch tree for every "
             "(parameter, flow unit, darcy_weisbach, mass unit, reaction order) configuration; table comparison with physical definitions",
             "Exhaustive over the finite configuration space: every configuration is linear, k_to*k_from = 1, and k_to equals the reference "
